@@ -98,7 +98,7 @@ func (s *scenario) blsOf(a common.Address) int {
 // oracle evaluates the property directly on the observed behaviour of the real code.
 func (s *scenario) oracle(c *ucase, r *uresult) []failure {
 	var fs []failure
-	frac := new(big.Int).SetUint64(s.yp.PenaltyFractionForDoubleSign)
+	frac := new(big.Int).SetUint64(s.paramsFor(c).PenaltyFractionForDoubleSign)
 	if c.kind == "T" {
 		return nil // takePenalty cases are judged by oracleTake
 	}
